@@ -52,7 +52,8 @@ Tick(k0, k1, v) ==
     /\ k0 \in 0..Avail(0)
     /\ IF prog = 2 THEN k1 \in 0..Avail(1) /\ v \in version..Len(sl.ins[2])
                    ELSE k1 = 0 /\ v = version
-    /\ k0 + k1 > 0 \/ v > version                  \* some hook has something new
+    \* some hook has something new (the very first slice may just see the initial snapshot)
+    /\ k0 + k1 > 0 \/ v > version \/ (prog = 2 /\ idx = 0)
     /\ LET s0 == BatchStep(sl, 0, IF prog = 2 THEN idx ELSE -1, Batch(0, k0))
            s1 == IF prog = 2 THEN SnapStep(BatchStep(s0, 1, idx, Batch(1, k1)), idx, v) ELSE s0
            s2 == IF prog = 1 THEN StateStep(s1, total, total + k0, k0)
